@@ -62,7 +62,7 @@ fn action(kind: usize, blen: usize) -> Action {
 
 /// the adversarial corpus; deterministic in (seed, index)
 fn gen_case(i: usize, rng: &mut Rng) -> (ConnCase, String) {
-    let fam = i % 13;
+    let fam = i % 14;
     let act = rng.below(5);
     let mut tag = String::new();
     let mut bytes: Vec<u8> = vec![];
@@ -142,6 +142,10 @@ fn gen_case(i: usize, rng: &mut Rng) -> (ConnCase, String) {
             bytes.extend_from_slice(format!("GET /te HTTP/1.1\r\nTE: {}\r\n\r\n", te).as_bytes());
             tag = format!("te{}", n);
         }
+        13 => {
+            // run by `rstbody_case`, not through `run_case`
+            tag = "rstbody".into();
+        }
         12 => {
             // clients that send a whole request and reset the connection at once, ahead of an
             // ordinary conversation on the same server
@@ -170,6 +174,63 @@ fn gen_case(i: usize, rng: &mut Rng) -> (ConnCase, String) {
     (c, tag)
 }
 
+/// A client that resets the connection while the handler is reading a streamed body: the read
+/// fails with an I/O error; the handler reads again, then answers or drops the request.  Nothing of
+/// this may panic.  The model is not run on these lines (`bigcase=1`): the controlled `cut` family
+/// compares reset-inside-a-body with the model; here only the process-level observations count.
+fn rstbody_case(id: usize, rng: &mut Rng) -> String {
+    use std::io::Read;
+    let server = std::sync::Arc::new(tiny_http::Server::http("127.0.0.1:0").unwrap());
+    let ip = server.server_addr().to_ip().unwrap();
+    let framing = rng.below(3);
+    let respond = rng.chance(1, 2);
+    let s2 = server.clone();
+    let (tx, rx) = std::sync::mpsc::channel();
+    std::thread::spawn(move || {
+        if let Ok(Some(mut rq)) = s2.recv_timeout(std::time::Duration::from_secs(2)) {
+            let mut buf = [0u8; 512];
+            let mut errs = 0;
+            for _ in 0..50 {
+                match rq.as_reader().read(&mut buf) {
+                    Ok(0) => break,
+                    Ok(_) => {}
+                    Err(_) => {
+                        errs += 1;
+                        if errs >= 2 {
+                            break;
+                        }
+                    }
+                }
+            }
+            if respond {
+                let _ = rq.respond(tiny_http::Response::from_string("late"));
+            } else {
+                drop(rq);
+            }
+        }
+        let _ = tx.send(());
+    });
+    let head: &[u8] = match framing {
+        0 => b"POST /rstbody HTTP/1.1\r\nHost: x\r\nContent-Length: 5000\r\n\r\nhello",
+        1 => b"POST /rstbody HTTP/1.1\r\nHost: x\r\nTransfer-Encoding: chunked\r\n\r\n1000\r\nhello",
+        _ => b"POST /rstbody HTTP/1.1\r\nHost: x\r\nExpect: 100-continue\r\nContent-Length: 700\r\n\r\nhello",
+    };
+    if let Ok(mut c) = std::net::TcpStream::connect(ip) {
+        let _ = c.write_all(head);
+        std::thread::sleep(std::time::Duration::from_millis(40));
+        verif_harness::connrun::abort_on_close(&c);
+        drop(c);
+    }
+    let hang = rx.recv_timeout(std::time::Duration::from_secs(4)).is_err();
+    drop(server);
+    format!(
+        "conn id={} bytes= bigcase=1 mode=reset hold=none segs=none unix=0 script={} i_fam=c14 i_tag=rstbody i_act=3 | delivered= wire= eof=1 results= hang={} dates=ok",
+        id,
+        verif_harness::connrun::action_enc(&action(3, 0)),
+        if hang { 1 } else { 0 }
+    )
+}
+
 fn child(from: usize, to: usize) {
     let seed = seed_from_env();
     std::panic::set_hook(Box::new(|_| {
@@ -191,7 +252,7 @@ fn child(from: usize, to: usize) {
         PEAK.store(LIVE.load(Ordering::SeqCst), Ordering::SeqCst);
         let live0 = LIVE.load(Ordering::SeqCst);
         let tm = Timing { quiet_ms: 150, deadline_ms: 6000, seg_pause_us: 0 };
-        let line = run_case(i as u64, &c, &tmpdir, &tm);
+        let line = if i % 14 == 13 { rstbody_case(i, &mut rng) } else { run_case(i as u64, &c, &tmpdir, &tm) };
         let maxalloc = MAX_SINGLE.load(Ordering::SeqCst);
         let peak = PEAK.load(Ordering::SeqCst).saturating_sub(live0);
         let panics = PANICS.load(Ordering::SeqCst);
